@@ -228,7 +228,7 @@ func (e *Engine) checkComputedSubjectSet(
 		Object:    r.Object,
 		Relation:  subjectSet.Relation,
 		Subject:   r.Subject,
-	}, restDepth, false)
+	}, restDepth-1, false)
 }
 
 // checkTupleToSubjectSet rewrites the relation tuple to use the subject-set relation.
